@@ -165,7 +165,10 @@ class C20(Prop):
                    '"Unhandled error in Deferred" exactly when the last result is a Failure) is modelled by TTV.Deferred.runCbs/add/fire/resume, not verified',
                    'inner matchers are Always/Never/Equals (values) and Always/Never/exception-code (failures); they are assumed pure',
                    'garbage collection: the Deferred is dropped and gc.collect() is run inside the case; CPython reference counting semantics are assumed',
-                   'SynchronousDeferredRunTest: only the reported outcome kind is compared (not details or tracebacks)']
+                   'SynchronousDeferredRunTest: only the reported outcome kind is compared (not details or tracebacks)',
+                   'translator tie: harness/pydeferred2lean.py reads on_deferred_result, the three matchers\' match + handlers, extract_result and '
+                   '_run_user as data (messages of Mismatch objects are not translated); TTV.DeferredSkel gives the data its meaning (trusted: that the '
+                   'interpreter reads the recognised statement forms as Python does); unrecognised statements become .unknown']
 
     manifest = {
         'text': 'Theorems for every Deferred state and every history of fire / add-callback / chained-Deferred resume / match / extract operations: the '
@@ -174,7 +177,9 @@ class C20(Prop):
                 'three classifying matchers matches; matching never fires and is invisible to every later operation and callback except that succeeded/failed '
                 'turn an inspected failure into a handled one (so it is not logged at collection, while has_no_result leaves it); extract_result returns the '
                 'value, raises the exception or raises DeferredNotFired; SynchronousDeferredRunTest reports an already-fired Deferred like the direct '
-                'return/raise. Tied to the code by a differential check against real twisted Deferreds incl. the unhandled-error log after gc.',
+                'return/raise. Tied to the code (a) by theorems C20_src_* proving that matchOp / extractOp / runUser ARE the interpretation of the case '
+                'splits and handlers re-read from _deferred.py, _matchers.py and _runtest.py on every run, (b) by a differential check against real '
+                'twisted Deferreds incl. the unhandled-error log after gc.',
         'note': 'trusted: Lean kernel, the model TTV/Model/Deferred.lean, the harness; Twisted\'s Deferred (chaining, pausing, DebugInfo logging) is '
                 'modelled, not verified; inner matchers restricted to Always/Never/Equals/exception code and assumed pure',
         'technique': 'Lean 4 simulation proof (operational matchers vs declarative semantics) by induction over histories; executable spec shared with a '
@@ -183,6 +188,11 @@ class C20(Prop):
 
     def __init__(self):
         self.errors = None
+
+    def extract_tables(self, repo):
+        """tie: the decision logic of on_deferred_result / the matchers / extract_result / _run_user, re-read from the tree"""
+        from harness import pydeferred2lean
+        return {'TTV/Generated/DeferredSrc.lean': pydeferred2lean.generate(repo)}
 
     def observer(self):
         if self.errors is None:
